@@ -6,11 +6,19 @@
     [C14_universe_distinct] speaks about exactly the types the harness instantiated; the
     check driver also compares the number of printed cases with [universe_size]). *)
 From Coq Require Import String.
-From QV Require Import Common.Prelude TypeId.Model TypeId.Universe.
+From QV Require Import Common.Prelude TypeId.Model TypeId.Structural TypeId.Universe.
 Open Scope N_scope.
 Open Scope string_scope.
 
-Inductive case := Case (i : N) (t : tterm) (hi lo : N).
+Inductive case :=
+| Case (i : N) (t : tterm) (hi lo : N)
+| Free (t : tterm) (hi lo : N)
+    (* a random term outside the universe whose id the real [from_unique_type_name] /
+       [combine] computed at run time (folds written by the harness) *)
+| Twin (a b : tterm) (hi lo : N).
+    (* the known finding, replayed: two different types (outside the universe: one derived
+       name at two arities) for which the real code computed the same id [hi lo]; the model
+       must agree on the id and explain it by equal id expressions *)
 
 Definition check (c : case) : bool :=
   match c with
@@ -18,6 +26,12 @@ Definition check (c : case) : bool :=
       let '(h, l) := id_of t in
       N.eqb h hi && N.eqb l lo &&
       match nth_error universe (N.to_nat i) with Some u => tterm_eqb t u | None => false end
+  | Free t hi lo => let '(h, l) := id_of t in N.eqb h hi && N.eqb l lo
+  | Twin a b hi lo =>
+      let '(h, l) := id_of a in
+      let '(h', l') := id_of b in
+      N.eqb h hi && N.eqb l lo && N.eqb h' hi && N.eqb l' lo &&
+      sym_eqb (sym_id a) (sym_id b) && negb (tterm_eqb a b)
   end.
 
 Fixpoint failures_from (i : N) (cs : list case) : list N :=
